@@ -59,6 +59,7 @@ var (
 	mu         sync.Mutex
 	cond       = sync.NewCond(&mu)
 	configured bool
+	gen        int
 	cfg        Config
 	events     []Event
 	ticket     int
@@ -80,6 +81,7 @@ func Configure(c Config) {
 
 func configureLocked(c Config) {
 	cfg = c
+	gen++ // a goroutine still waiting at a gate of the previous configuration stops waiting
 	configured = true
 	events = nil
 	ticket = 0
@@ -166,6 +168,7 @@ func Ready(site string, idx int) {
 		fromEnv()
 	}
 	jitter := cfg.Jitter
+	myGen := gen
 	markArrived(site, idx)
 	for _, g := range cfg.Gates {
 		if g.Site != site {
@@ -182,7 +185,7 @@ func Ready(site string, idx int) {
 		}
 		deadline := time.Now().Add(cfg.GateWait)
 		timer := time.AfterFunc(cfg.GateWait, func() { mu.Lock(); cond.Broadcast(); mu.Unlock() })
-		for !allArrived(g, pos) {
+		for gen == myGen && !allArrived(g, pos) {
 			if time.Now().After(deadline) {
 				unrealised++
 				break
@@ -195,7 +198,7 @@ func Ready(site string, idx int) {
 		if pos, ok := gatePos[idx]; ok {
 			deadline := time.Now().Add(cfg.GateWait)
 			timer := time.AfterFunc(cfg.GateWait, func() { mu.Lock(); cond.Broadcast(); mu.Unlock() })
-			for !allRecvdBefore(pos) {
+			for gen == myGen && !allRecvdBefore(pos) {
 				if time.Now().After(deadline) {
 					unrealised++
 					break
